@@ -25,6 +25,8 @@ for pid in sorted(plan.PLANS):
         extra.append("L2 conformance (KanalTrace, 4 capacities, drift escalation)")
     if p.get("spec_l1l0"):
         extra.append("L1-simulated histories through the L0 monitors and the L1 validator")
+    if p.get("spec_l2l1"):
+        extra.append("L2-simulated behaviours as API histories through the L1 validator and the L0 monitors")
     if p.get("spec_replay"):
         extra.append("spec->impl replay of simulated Kanal.tla behaviours")
     rows.append("| %s | %s | %s | %s |" % (pid, mc, "; ".join(runs), "; ".join(extra)))
